@@ -96,6 +96,39 @@ class Iteration:
             return None
         return base + _fields(proj)
 
+    def indexed_by_element(self, op_or_place, depth=0):
+        """(base place, element path of the index) if the operand (in the body function) is other[k] - a place with an index projection, or
+        the dereferenced result of Index::index(&other, k) - where k is (a part of) this iteration's element; None otherwise.  `other` is
+        given as the canonical place the indexed value lives in (loop form: a place of the enclosing function)."""
+        fn = self.body
+        p = op_or_place if isinstance(op_or_place, tuple) else op_place(op_or_place)
+        if p is None or depth > 12:
+            return None
+        l, proj = p
+        idx = [e for e in proj if e[0] == "index"]
+        if idx:
+            ip = self.elem_path((idx[0][1], ()))
+            if ip is not None:
+                base = fn.canon((l, tuple(e for e in proj[:proj.index(idx[0])])))
+                return (base, ip)
+            return None
+        ds = fn.defs.get(l, [])
+        if len(ds) != 1:
+            return None
+        d = ds[0]
+        if d[0] == "call" and (d[2]["callee"].get("path") or "") in ("core::ops::index::Index::index", "core::ops::index::IndexMut::index_mut") and len(d[2]["args"]) == 2:
+            ip = self.elem_path(d[2]["args"][1])
+            if ip is None:
+                return None
+            bl = op_local(d[2]["args"][0])
+            base = fn.resolve_ptr(bl) if bl is not None else None
+            return ((base if base is not None else (bl, ())), ip)
+        if d[0] == "assign" and d[3]["k"] in ("use", "ref", "copyforderef"):
+            src = op_place(d[3]["op"]) if d[3]["k"] == "use" else P(d[3]["place"])
+            if src is not None:
+                return self.indexed_by_element(src, depth + 1)
+        return None
+
     def acc_path(self, op_or_place, depth=0):
         """same for the accumulator parameter of a fold closure"""
         if self.acc_local is None:
@@ -644,9 +677,26 @@ NEG = {"Eq": "Ne", "Ne": "Eq", "Lt": "Ge", "Ge": "Lt", "Le": "Gt", "Gt": "Le"}
 FLIP = {"Eq": "Eq", "Ne": "Ne", "Lt": "Gt", "Gt": "Lt", "Le": "Ge", "Ge": "Le"}
 
 
+def _side(it, op):
+    """a comparison operand as an element path, or as ("at", base place, index path) when it is other[k] with k a part of the element"""
+    ep = it.elem_path(op)
+    if ep is not None:
+        return ep
+    ix = it.indexed_by_element(op)
+    if ix is not None:
+        return ("at", ix[0], ix[1])
+    return None
+
+
 def norm_cmp(c):
-    """(op, left path, right path) with the lexicographically smaller path on the left"""
+    """(op, left path, right path) with the lexicographically smaller path on the left; a side that is `other[k]` with k a part of the
+    element is written ("at", base place, path of k) and always goes to the right"""
     op, l, r = c
+    lat, rat = (l is not None and l[:1] == ("at",)), (r is not None and r[:1] == ("at",))
+    if lat and not rat and r is not None:
+        return (FLIP[op], r, l)
+    if lat or rat:
+        return c
     if l is not None and r is not None and r < l:
         return (FLIP[op], r, l)
     return c
@@ -706,14 +756,14 @@ def forall_guards(prog, f, its, B):
                 d = f.single_def(s["root"])
                 c = None
                 if d and d[0] == "assign" and d[3]["k"] == "binop" and d[3]["op"] in CMP_OPS:
-                    c = (d[3]["op"], it.elem_path(d[3]["l"]), it.elem_path(d[3]["r"]))
+                    c = (d[3]["op"], _side(it, d[3]["l"]), _side(it, d[3]["r"]))
                 elif d and d[0] == "call" and (d[2]["callee"].get("path") or "") in CMP_CALLS and len(d[2]["args"]) == 2:
                     c = (CMP_CALLS[d[2]["callee"]["path"]], it.elem_path(d[2]["args"][0]), it.elem_path(d[2]["args"][1]))
                 elif d and d[0] == "assign" and d[3]["k"] == "unop" and d[3]["op"] == "Not":
                     l2 = op_local(d[3]["operand"])
                     d2 = f.single_def(f.copy_root(l2)) if l2 is not None else None
                     if d2 and d2[0] == "assign" and d2[3]["k"] == "binop" and d2[3]["op"] in CMP_OPS:
-                        c = (NEG[d2[3]["op"]], it.elem_path(d2[3]["l"]), it.elem_path(d2[3]["r"]))
+                        c = (NEG[d2[3]["op"]], _side(it, d2[3]["l"]), _side(it, d2[3]["r"]))
                     elif d2 and d2[0] == "call" and (d2[2]["callee"].get("path") or "") in CMP_CALLS and len(d2[2]["args"]) == 2:
                         c = (NEG[CMP_CALLS[d2[2]["callee"]["path"]]], it.elem_path(d2[2]["args"][0]), it.elem_path(d2[2]["args"][1]))
                 if c is None:
@@ -812,14 +862,14 @@ def _cmp_of_switch(f, it, sb, st):
     d = f.single_def(s["root"])
     c = None
     if d and d[0] == "assign" and d[3]["k"] == "binop" and d[3]["op"] in CMP_OPS:
-        c = (d[3]["op"], it.elem_path(d[3]["l"]), it.elem_path(d[3]["r"]))
+        c = (d[3]["op"], _side(it, d[3]["l"]), _side(it, d[3]["r"]))
     elif d and d[0] == "call" and (d[2]["callee"].get("path") or "") in CMP_CALLS and len(d[2]["args"]) == 2:
         c = (CMP_CALLS[d[2]["callee"]["path"]], it.elem_path(d[2]["args"][0]), it.elem_path(d[2]["args"][1]))
     elif d and d[0] == "assign" and d[3]["k"] == "unop" and d[3]["op"] == "Not":
         l2 = op_local(d[3]["operand"])
         d2 = f.single_def(f.copy_root(l2)) if l2 is not None else None
         if d2 and d2[0] == "assign" and d2[3]["k"] == "binop" and d2[3]["op"] in CMP_OPS:
-            c = (NEG[d2[3]["op"]], it.elem_path(d2[3]["l"]), it.elem_path(d2[3]["r"]))
+            c = (NEG[d2[3]["op"]], _side(it, d2[3]["l"]), _side(it, d2[3]["r"]))
         elif d2 and d2[0] == "call" and (d2[2]["callee"].get("path") or "") in CMP_CALLS and len(d2[2]["args"]) == 2:
             c = (NEG[CMP_CALLS[d2[2]["callee"]["path"]]], it.elem_path(d2[2]["args"][0]), it.elem_path(d2[2]["args"][1]))
     if c is None:
